@@ -286,6 +286,11 @@ impl CallHelper {
         args.prepare_registers(&mut regs);
         regs.update(Register::Rax, fn_addr);
         regs.update(Register::Rip, rip);
+        // SysV ABI: leave the red zone of the interrupted function intact and make the stack
+        // 16-byte aligned at the call site (all registers are restored after the call)
+        const RED_ZONE: u64 = 128;
+        let sp = regs.value(Register::Rsp);
+        regs.update(Register::Rsp, sp.wrapping_sub(RED_ZONE) & !0xf);
         regs.persist(ccx.pid)?;
 
         debug!(target: "debugger", "call a function, wait until breakpoint are hit");
